@@ -15,11 +15,12 @@ struct GHeap { bool alive = false; bool destroyable = false; int arena = -1; int
 struct Profile {
   // op family weights
   unsigned w_alloc = 30, w_free = 18, w_realloc = 8, w_expand = 1, w_fill = 6, w_holes = 5, w_drain = 3, w_tfree = 2, w_talloc = 1,
-           w_heap = 4, w_collect = 3, w_visit = 2, w_verify = 1, w_tick = 0, w_edge = 0, w_churn = 2, w_zchain = 0;
+           w_heap = 4, w_collect = 3, w_visit = 2, w_verify = 1, w_tick = 0, w_edge = 0, w_churn = 2, w_zchain = 0, w_defer = 0;
   unsigned p_aligned = 15, p_zero = 20, p_heap_api = 25;   // percent
   unsigned p_offset = 30;       // of aligned allocs, percent with offset
   bool big_ok = true; bool zchains = false; bool arenas = false; int min_ops = 20, max_ops = 160;
   bool stop_visits = false;
+  bool rare_api = false;   // string/environment duplicating entry points (mbsdup, wcsdup, dupenv_s, realpath)
 };
 
 struct Gen {
@@ -95,10 +96,13 @@ struct Gen {
     } else {
       static const std::vector<std::string> zf = { "zalloc", "zalloc", "calloc", "zalloc_small", "rezalloc_null" };
       static const std::vector<std::string> nf = { "malloc", "malloc", "malloc", "malloc", "mallocn", "malloc_small", "strdup", "strndup", "new_nothrow", "new", "new_n", "realloc_null", "reallocarray_null" };
-      f = zero ? ch.of(zf) : ch.of(nf);
+      static const std::vector<std::string> nfx = { "malloc", "malloc", "malloc", "malloc", "mallocn", "malloc_small", "strdup", "strndup", "new_nothrow", "new", "new_n", "realloc_null", "reallocarray_null", "mbsdup", "wcsdup", "dupenv", "realpath" };
+      f = zero ? ch.of(zf) : (pf.rare_api ? ch.of(nfx) : ch.of(nf));
     }
     if ((f == "malloc_small" || f == "zalloc_small") && n > SMALL_SIZE_MAX) f = zero ? "zalloc" : "malloc";
-    if ((f == "strdup" || f == "strndup") && n > 60000) f = "malloc";
+    if ((f == "strdup" || f == "strndup" || f == "mbsdup" || f == "wcsdup") && n > 60000) f = "malloc";
+    if (f == "dupenv" && n > 8000) f = "malloc"; if (f == "realpath" && (n > 64 || cur_k > 1)) f = "malloc";
+    if (h && (f == "mbsdup" || f == "wcsdup" || f == "dupenv")) f = "strdup";
     if ((f == "new" || f == "new_n" || f == "new_aligned") && (n > MiB || a > MiB)) f = aligned ? "malloc_aligned" : "malloc";
     bool has_c = (f == "calloc" || f == "mallocn" || f == "calloc_aligned" || f == "calloc_aligned_at" || f == "new_n" || f == "reallocarray_null");
     if (has_c && n > 0) { static const std::vector<size_t> cs = { 1, 2, 3, 4, 7, 8, 16 }; c = ch.of(cs); size_t per = n / c; if (per == 0) { per = n; c = 1; } n = per; }
@@ -229,6 +233,14 @@ struct Gen {
     static const std::vector<size_t> other = { 32, 48, 16, 80, 96, 8, 64, 112 }; fill(k3, ch.of(other));
     fill(k4, S);
   }
+  // park part of a group with the deferred-free callback: the allocator frees those blocks itself, from inside a later generic allocation or collect
+  void g_defer() {
+    if (groups.empty()) { g_fill(); return; } GGroup& g = groups[ch.pick(groups.size())];
+    static const std::vector<int> st = { 1, 2, 2, 3 }; int step = ch.of(st), ph = (int)ch.pick((size_t)step);
+    out.push_back(Op("defer").u("s", (uint64_t)g.s0).u("k", (uint64_t)g.k).u("step", (uint64_t)step).u("ph", (uint64_t)ph));
+    for (int i = ph; i < g.k; i += step) note_free(g.s0 + i);
+    if (ch.chance(1, 3)) out.push_back(Op("collect").u("force", ch.chance(1, 2)));
+  }
   void g_churn() { int rounds = (int)ch.range(2, 5); for (int i = 0; i < rounds; i++) { size_t before = groups.size(); g_fill(); if (groups.size() > before) { GGroup g = groups.back(); out.push_back(Op("rfree").u("s", (uint64_t)g.s0).u("k", (uint64_t)g.k).u("step", 1).u("ph", 0)); for (int j = 0; j < g.k; j++) note_free(g.s0 + j); } } }
   void g_talloc() {
     size_t n = ch.chance(1, 2) ? ch.of(g_classes) : ch.range(1, 200*KiB); size_t k = ch.range(1, 40); if (k * n > 32*MiB) k = 1;
@@ -311,7 +323,7 @@ struct Gen {
   }
 
   void step() {
-    std::vector<unsigned> w = { pf.w_alloc, pf.w_free, pf.w_realloc, pf.w_expand, pf.w_fill, pf.w_holes, pf.w_drain, pf.w_tfree, pf.w_talloc, pf.w_heap, pf.w_collect, pf.w_visit, pf.w_verify, pf.w_tick, pf.w_churn, pf.w_edge, pf.w_zchain };
+    std::vector<unsigned> w = { pf.w_alloc, pf.w_free, pf.w_realloc, pf.w_expand, pf.w_fill, pf.w_holes, pf.w_drain, pf.w_tfree, pf.w_talloc, pf.w_heap, pf.w_collect, pf.w_visit, pf.w_verify, pf.w_tick, pf.w_churn, pf.w_edge, pf.w_zchain, pf.w_defer };
     switch (ch.weighted(w)) {
       case 0: g_alloc(); break; case 1: g_free(); break; case 2: g_realloc(); break; case 3: g_expand(); break; case 4: if (pf.p_aligned > 0 && ch.chance(1, 10)) g_aligned_page(); else if (pf.w_fill >= 6 && ch.chance(1, 12)) g_queue_cycle(); else g_fill(); break;
       case 5: g_range_free("rfree", 0); break; case 6: g_range_free("rfree", 1); break; case 7: g_range_free("tfree", (int)ch.pick(2)); break; case 8: g_talloc(); break;
@@ -319,6 +331,7 @@ struct Gen {
       case 13: { static const std::vector<size_t> ms = { 1, 5, 11, 50, 101, 1000, 5000 }; out.push_back(Op("tick").u("ms", ch.of(ms))); break; }
       case 14: g_churn(); break;
       case 15: g_edge(); break;
+      case 17: g_defer(); break;
       default: g_zchain(); break;
     }
   }
